@@ -26,7 +26,7 @@ func (s *State) assumeRef(t Term) {
 	if isLiteral(t) {
 		return
 	}
-	s.assume(And(Le(I(0), t), Lt(t, s.hwm)))
+	s.assume(Lt(t, s.hwm)) // (sub-object references are negative)
 }
 
 func (s *State) assumeRefs(v Value) {
@@ -52,6 +52,7 @@ func (s *State) assumeRefs(v Value) {
 
 func VerifyFunction(prog *ssa.Program, db *ContractDB, fn *ssa.Function, fc *FuncContract, maxPaths int) (res *FuncResult) {
 	enc := NewEnc(db, prog, fn.Pkg)
+	curEnc = enc
 	fv := &FuncVerifier{enc: enc, fn: fn, fc: fc, db: db, maxPaths: maxPaths, callIdx: map[string]int{}, obCount: map[string]int{}, nameCells: map[string][]*ssa.Alloc{}, retOrd: map[*ssa.Return]int{}, ghost: map[string]Value{}}
 	res = &FuncResult{Fn: fn.String(), Contract: fc, Enc: enc}
 	defer func() {
@@ -79,6 +80,7 @@ func VerifyFunction(prog *ssa.Program, db *ContractDB, fn *ssa.Function, fc *Fun
 	st.hwm = enc.declare("hwm0", SInt)
 	st.assume(Gt(st.hwm, I(0)))
 	enc.epochHwm[0] = st.hwm
+	enc.noLocksAtEntry = fc.NoLocks
 	fv.params = map[string]Value{}
 	for _, p := range fn.Params {
 		v := st.freshValue(p.Name(), p.Type())
@@ -205,13 +207,19 @@ func (fv *FuncVerifier) frameAllows() []frameAllow {
 				allows = append(allows, frameAllow{"GH_" + x.Args[0].(*SIdent).Name, nil})
 			case "locks":
 				allows = append(allows, frameAllow{"LK_", nil})
+			case "mapcontent":
+				mv := env.eval(x.Args[0])
+				o := mv.L[0]
+				allows = append(allows, frameAllow{"M_content", &o})
 			}
 		case *SIdent:
 			if fields, ok := fv.db.Regions[x.Name]; ok {
 				for _, f := range fields {
 					allows = append(allows, frameAllow{fv.prefixOfTypeField(env, f), nil})
 				}
-				allows = append(allows, frameAllow{"M_", nil})
+				if regionHasMaps(env, fields) {
+					allows = append(allows, frameAllow{"M_", nil})
+				}
 			}
 		}
 	}
@@ -256,9 +264,6 @@ func (fv *FuncVerifier) frameGoal(name, sortS string, cur Term) (Term, bool) {
 // the function's modifies clause.
 func (fv *FuncVerifier) loopFrameAxiom(name string, t Term, sortS string) {
 	if fv.fc == nil || !fv.fc.HasModifies || fv.pre == nil {
-		return
-	}
-	if strings.HasPrefix(name, "LK_") || strings.HasPrefix(name, "M_") {
 		return
 	}
 	g, ok := fv.frameGoal(name, sortS, t)
